@@ -5,3 +5,4 @@ pub mod rng;
 pub mod px;
 pub mod pxx;
 pub mod spell;
+pub mod total;
